@@ -73,6 +73,7 @@ fn main() {
     "c06" => props::c06::run(&cfg),
     "c13" => props::c13::run(&cfg),
     "c20" => props::c20::run(&cfg),
+    "c07" => props::c07::run(&cfg),
     _ => {
       eprintln!("unknown property {}", prop);
       std::process::exit(2);
